@@ -35,28 +35,22 @@ Inductive case :=
 (* finding classes, attributed by switching otto's remaining deviations on one after the other:
    2 ToNumber(string) accepts Go float/int syntax outside 9.3.1
    3 ToNumber(string) rejects hex literals >= 2^63
-   4 string < on UTF-8 bytes instead of UTF-16 units
    7 ToString of a number held as a Go integer prints every integer digit (CIntStr)
-   Classes 1 (ToInt32 family beyond 2^63), 5 (a + b order), 6 (x op= e order) and 8 (instanceof on a
-   bound function) were repaired in /repo (02e659b, 0c8f777, 3657e0a, ea21c58) and are no longer
-   produced: the old behaviour would now be a violation. *)
+   Classes 1 (ToInt32 family beyond 2^63), 4 (string < on UTF-8 bytes), 5 (a + b order),
+   6 (x op= e order) and 8 (instanceof on a bound function) were repaired in /repo
+   (02e659b, b6ed2ef, 0c8f777, 3657e0a, ea21c58) and are no longer produced: the old
+   behaviour would now be a violation. *)
 Definition overaccept (s : list Z) : numlit :=
   match string_to_number s with NLNaN => model_str2num s | r => r end.
 
 Definition h2 : dialect := {|
   d_int32 := m_to_int32; d_uint32 := m_to_uint32; d_uint16 := m_to_uint16; d_integer := m_to_integer; d_div := m_divide;
-  d_str2num := overaccept; d_strlt := units_lt; d_otto_cmp := true |}.
-Definition h3 : dialect := {|
-  d_int32 := m_to_int32; d_uint32 := m_to_uint32; d_uint16 := m_to_uint16; d_integer := m_to_integer; d_div := m_divide;
-  d_str2num := model_str2num; d_strlt := units_lt; d_otto_cmp := true |}.
+  d_str2num := overaccept; d_strlt := m_str_lt; d_otto_cmp := true |}.
 
 Definition oobs_eqb := option_eqb obs_eqb.
 
 Definition class_of (ps vs : list value) (e : expr) : Z :=
-  let s := run spec_d ps vs e in
-  if negb (oobs_eqb (run h2 ps vs e) s) then 2
-  else if negb (oobs_eqb (run h3 ps vs e) s) then 3
-  else 4.
+  if negb (oobs_eqb (run h2 ps vs e) (run spec_d ps vs e)) then 2 else 3.
 
 Definition verdict (c : case) : Z * Z :=
   match c with
